@@ -108,6 +108,16 @@ def collision_candidate(root):
     return False
 
 
+def classify(root, r):
+    """Finding class of an outcome = failure signature AND structural predicate over the shape; anything else that
+    goes wrong (in particular every wrong *value*) stays unclassified and is reported as new."""
+    if r['kind'] == 'crash' and 'AssertionError' in r['why'] and collision_candidate(root):
+        return COLLISION
+    if r['kind'] == 'scope' or (r['kind'] == 'crash' and 'KeyError' in r['why']):
+        return known_class(root)
+    return None
+
+
 def eval_names(n):
     """Names (bound variables and free leaves, not constants) referenced in eval position inside `n`."""
     if isinstance(n, S.Var):
@@ -254,7 +264,7 @@ def _witness(o, m, family, n, shadow, api=False):
 def run_shard(family, n, shadow, pins, batch=300, timeout_ms=120000, max_cex=12, api=False):
     """Explore every shape whose first choices are `pins`.  Returns a summary dict (picklable)."""
     t0 = time.time()
-    strict = family == 'strict'
+    strict = family.startswith('strict')
     env = leaves_env()
     cvars = [z3.Int(f'c{i}') for i in range(len(pins))]
     ex = shapex.ShapeExplorer(constraints=[cvars[i] == pins[i] for i in range(len(pins))], max_paths=10 ** 8,
@@ -284,9 +294,7 @@ def run_shard(family, n, shadow, pins, batch=300, timeout_ms=120000, max_cex=12,
         r = analyse(root, env, strict, api=api)
         r['choices'] = list(seq)
         r['shape'] = repr(root)
-        r['cls'] = known_class(root)
-        if r['cls'] is None and r['kind'] == 'crash' and 'AssertionError' in r['why'] and collision_candidate(root):
-            r['cls'] = COLLISION
+        r['cls'] = classify(root, r)
         stats['paths'] += 1
         stats['with_lets'] += 1 if r['lets'] else 0
         stats['with_agg_lets'] += 1 if re.search(r'AggLet __cse_\d+ False', r['cse']) else 0
@@ -394,7 +402,7 @@ def rebuild(choices, family, n, shadow):
 def replay_concrete(d):
     """Re-run one counterexample concretely on the real renderers.  Returns (violates: bool, message)."""
     root = rebuild(d['choices'], d['family'], d['n'], d.get('shadow', False))
-    r = analyse(root, leaves_from_values(d['leaves']), d['family'] == 'strict', strict_eval_all=True,
+    r = analyse(root, leaves_from_values(d['leaves']), d['family'].startswith('strict'), strict_eval_all=True,
                 api=d.get('api', False))
     if r['differs'] is True:
         return True, f"{r['kind']}: {r['why']}\n  cse:   {r['cse']}\n  plain: {r['plain']}"
